@@ -298,7 +298,10 @@ func (x *inst) realAdd(v uint32) (got bool) {
 				break
 			}
 			if try >= 400 {
-				common.Infra("cannot obtain first tower height %d from the library's own source after %d attempts", want, try)
+				// the library's source never draws this height (any distribution of tower heights is
+				// legitimate): go on with the height it draws and say that the script was not followed
+				heightNotObtained.Store(true)
+				break
 			}
 			x.bm = setz.RoaringBitmap{}
 			for _, p := range x.pre {
@@ -401,6 +404,9 @@ func (x *inst) remove(v uint32) bool {
 	}
 	return true
 }
+
+// heightNotObtained: the first tower height of a zero-value bitmap could not be pinned by rejection.
+var heightNotObtained atomic.Bool
 
 func presence(p bool) string {
 	if p {
